@@ -1,4 +1,4 @@
-//@serves C04 C05 C09 C10 C11 C14 C15
+//@serves C04 C05 C09 C10 C11 C14 C15 C01 C06 C07
 //@tier A
 //@include prelude/head.rs
 verus! {
@@ -44,6 +44,7 @@ pub mod ledger {
 //@prove syscalls.fsmount
 //@prove syscalls.open_tree
 //@prove syscalls.geteuid
+//@prove syscalls.readlinkat
 }
 } // verus!
 fn main() {}
